@@ -1,10 +1,13 @@
 package main
 
 import (
+	_ "embed"
+	"encoding/json"
 	"fmt"
 	"go/constant"
 	"go/token"
 	"go/types"
+	"os"
 	"regexp"
 	"sort"
 	"strings"
@@ -57,10 +60,67 @@ func paramIdx(f *ssa.Function, name string) int {
 	}
 	for i, p := range f.Params {
 		if p.Name() == name {
+			recordParam(f, name, i)
 			return i
 		}
 	}
+	// the parameter may have been renamed: the rule tables refer to parameters by the names they had
+	// when the rules were written; paramtable.json records their positions and types at that time
+	if e, ok := paramTable()[fname(f)+"|"+name]; ok && e.Idx < len(f.Params) && f.Params[e.Idx].Type().String() == e.Type {
+		return e.Idx
+	}
 	return -1
+}
+
+type paramEntry struct {
+	Idx  int    `json:"idx"`
+	Type string `json:"type"`
+}
+
+//go:embed paramtable.json
+var paramTableJSON []byte
+
+var (
+	paramTab     map[string]paramEntry
+	paramRecords = map[string]paramEntry{}
+)
+
+func paramTable() map[string]paramEntry {
+	if paramTab == nil {
+		paramTab = map[string]paramEntry{}
+		_ = json.Unmarshal(paramTableJSON, &paramTab)
+	}
+	return paramTab
+}
+
+func recordParam(f *ssa.Function, name string, i int) {
+	paramRecords[fname(f)+"|"+name] = paramEntry{i, f.Params[i].Type().String()}
+}
+
+// writeParamRecords merges the successful by-name look-ups of this run into the file named by
+// CIRCL_PARAMTABLE_OUT (maintenance aid: regenerates paramtable.json on the reference tree).
+func writeParamRecords() {
+	out := os.Getenv("CIRCL_PARAMTABLE_OUT")
+	if out == "" || len(paramRecords) == 0 {
+		return
+	}
+	all := map[string]paramEntry{}
+	if b, err := os.ReadFile(out); err == nil {
+		_ = json.Unmarshal(b, &all)
+	}
+	for k, v := range paramRecords {
+		all[k] = v
+	}
+	b, _ := json.MarshalIndent(all, "", " ")
+	_ = os.WriteFile(out, b, 0o644)
+}
+
+// currentParamName maps a parameter name used by a rule to the name the parameter has now.
+func currentParamName(f *ssa.Function, name string) string {
+	if i := paramIdx(f, name); i >= 0 {
+		return f.Params[i].Name()
+	}
+	return name
 }
 
 // GuardSpec describes one "no acceptance unless the check passed" rule.
@@ -379,6 +439,7 @@ func (c *Ctx) depRule(p *Program, rule, what string, f *ssa.Function, sink depSi
 				c.undecided(rule, construct, "source "+s+" does not exist", p.fnPos(f))
 				return false
 			}
+			s = "param:" + currentParamName(f, strings.TrimPrefix(s, "param:"))
 		}
 		if !d.hasLabel(labels, s) {
 			missing = append(missing, s)
